@@ -1,6 +1,6 @@
 """C02: Unsolvable iff no solution exists."""
 import vlib
-from props import solverstream as ss, tracecheck as tc, enctie, antie
+from props import solverstream as ss, tracecheck as tc, enctie, antie, solvertie
 
 THEOREMS = ["C02_reference_correct", "C02_facts_hold", "C02_rup_sound", "C02_refutation_sound",
             "C02_trace_no_false_unsat", "C02_solvable_not_refuted",
@@ -37,7 +37,12 @@ def run(res, tier, seed, replay):
     enctie.annotate(recs)
     antie.annotate(recs)
     antie.annotate_propagates(recs)
+    solvertie.annotate(recs)
     for r in recs:
+        if not solvertie.ok(r):
+            res.tie_break(f"whole-run correspondence no longer checks for a synchronous run in {r['stream']}: the verdict, the sequence of "
+                          f"trail events, the clause database or the provider calls of the implementation differ from what the model of "
+                          f"Solver::solve (Cdcl/Solver.v) computes: {r['solver']}", dict(ss.replay_obj(r), solver_model=r["solver"]))
         if not antie.ok_propagates(r):
             res.tie_break(f"propagate correspondence no longer checks for a run in {r['stream']}: a call of Solver::propagate made other "
                           f"assignments or reported another conflict than the model (Cdcl/Propagate.v), or a hypothesis of "
@@ -103,7 +108,7 @@ def run(res, tier, seed, replay):
                 "debug+release, sync+yield, activity parameters {default,(0,.95),(5,.5),(1,1)}; verdict compared with the "
                 "Coq-verified exhaustive reference; non-trivial = Ok/Unsolvable outcome on a universe with >= 4 solvables")
     res.extra.update({"verdict_vs_reference": {f"{a}/ref_solvable={b}": c for (a, b), c in sorted(hist.items())},
-                      "hangs": len(hangs)}, **tc.stats(recs), **enctie.stats(recs), **antie.stats(recs))
+                      "hangs": len(hangs)}, **tc.stats(recs), **enctie.stats(recs), **antie.stats(recs), **solvertie.stats(recs))
     return res.finish(CHECKER, vlib.TRUSTED_BASE,
                       ["termination of the CDCL loop is observed (poll watchdog), not proved",
                        "panics are reported by C04"])
